@@ -7,7 +7,7 @@ use crate::gen::circ::{all_kinds, circ_spec, CircParams, CircSpec};
 use crate::gen::diag::{diag_spec, DiagParams, DiagSpec, Palette};
 use crate::gen::plant::{
     cat_plant, duplicate_plant, gadgets_plant, local_comp_plant, pivot_plant, planted_spec,
-    PlantedSpec,
+    star_spec, PlantedSpec, StarSpec,
 };
 use crate::oracle::diag::{build, Diag, IdPlan};
 use proptest::prelude::*;
@@ -322,6 +322,19 @@ pub fn def(ctx: &Ctx) -> PropertyDef {
                     .prop_map(|(spec, mask)| PlantedCase { spec, mask })
             },
             |c: &PlantedCase, obs| check_model(&c.spec.to_diag(), &c.spec.host.plan, c.mask, obs),
+        ),
+        Section::random(
+            "high-degree",
+            ctx.cases(12, 240),
+            move || (star_spec(t.pick(16, 18)), any::<u32>()),
+            |c: &(StarSpec, u32), obs| {
+                let d = c.0.to_diag();
+                obs.class_if(
+                    (d.degree(0) as i64 - 2) * (d.degree(1) as i64 - 2) >= 126,
+                    "sqrt2-exponent>=126",
+                );
+                check_model(&d, &IdPlan::default(), c.1, obs)
+            },
         ),
         Section::random(
             "circuit",
